@@ -153,7 +153,7 @@ pub struct FnSpec {
     pub receiver: Receiver,
     pub args: Vec<TyD>,
     pub gates: u8,
-    pub mem_pad: bool,
+    pub pad: u32,
     /// write `scope = "global"` explicitly (sync only)
     pub explicit_global_scope: bool,
     /// rotate the attribute list by this many positions (order must not matter)
@@ -182,7 +182,7 @@ impl FnSpec {
             receiver: Receiver::None,
             args: vec![TyD::U32, TyD::String],
             gates: 0,
-            mem_pad: false,
+            pad: 0,
             explicit_global_scope: false,
             attr_rotation: 0,
         }
@@ -298,7 +298,7 @@ impl FnSpec {
             let _ = writeln!(out, "{indent}    vrt::gate({g}).await;");
         }
         let body_fn = if self.ret == RetKind::Plain { "body_plain" } else { "body_result" };
-        let _ = writeln!(out, "{indent}    vrt::{body_fn}({}, {}, &[{}])", self.id, self.mem_pad, parts.join(", "));
+        let _ = writeln!(out, "{indent}    vrt::{body_fn}({}, {}, &[{}])", self.id, self.pad, parts.join(", "));
         let _ = writeln!(out, "{indent}}}");
         if self.receiver != Receiver::None {
             out.push_str("}\n");
@@ -310,7 +310,7 @@ impl FnSpec {
         let strs = |xs: &Vec<String>| format!("&[{}]", xs.iter().map(|s| format!("{:?}", s)).collect::<Vec<_>>().join(", "));
         let _ = writeln!(
             out,
-            "    FnDesc {{ id: {}, fn_name: {:?}, cache_name: {:?}, has_name_attr: {}, family: {:?}, flavour: Flavour::{:?}, policy: {}, limit: {:?}, ttl: {:?}, max_memory: {:?}, frequency_weight: {}, tags: {}, events: {}, deps: {}, invalidate_on: {}, cache_if: {}, ret: RetKind::{:?}, receiver: Receiver::{:?}, args: &[{}], gates: {}, mem_pad: {}, attr_text: {:?} }},",
+            "    FnDesc {{ id: {}, fn_name: {:?}, cache_name: {:?}, has_name_attr: {}, family: {:?}, flavour: Flavour::{:?}, policy: {}, limit: {:?}, ttl: {:?}, max_memory: {:?}, frequency_weight: {}, tags: {}, events: {}, deps: {}, invalidate_on: {}, cache_if: {}, ret: RetKind::{:?}, receiver: Receiver::{:?}, args: &[{}], gates: {}, pad: {}, attr_text: {:?} }},",
             self.id,
             self.fn_name,
             self.cache_name(),
@@ -337,7 +337,7 @@ impl FnSpec {
             self.receiver,
             self.args.iter().map(|t| t.static_expr()).collect::<Vec<_>>().join(", "),
             self.gates,
-            self.mem_pad,
+            self.pad,
             self.attr_text(),
         );
     }
@@ -513,7 +513,7 @@ pub fn static_corpus() -> Vec<FnSpec> {
                         s.limit = limit;
                         s.ttl = ttl;
                         s.max_memory = mem.map(|m| (format!("\"{m}\""), m));
-                        s.mem_pad = mem.is_some();
+                        s.pad = if mem.is_some() { 1 } else { 0 };
                         s.attr_rotation = i as usize;
                         v.push(s);
                     }
@@ -569,7 +569,7 @@ pub fn static_corpus() -> Vec<FnSpec> {
                     s.policy = Some(p);
                     s.limit = limit;
                     s.max_memory = mem.map(|m: usize| (format!("\"{m}\""), m));
-                    s.mem_pad = mem.is_some();
+                    s.pad = if mem.is_some() { 1 } else { 0 };
                     v.push(s);
                 }
             }
@@ -586,7 +586,7 @@ pub fn static_corpus() -> Vec<FnSpec> {
                     s.policy = Some(p);
                     s.limit = limit;
                     s.max_memory = mem.map(|m: usize| (format!("\"{m}\""), m));
-                    s.mem_pad = mem.is_some();
+                    s.pad = if mem.is_some() { 1 } else { 0 };
                     s.cache_if = true;
                     v.push(s);
                 }
@@ -672,7 +672,7 @@ pub fn static_corpus() -> Vec<FnSpec> {
                 s.limit = Some(2);
                 s.ttl = ttl;
                 s.max_memory = mem.map(|m: usize| (format!("\"{m}\""), m));
-                s.mem_pad = mem.is_some();
+                s.pad = if mem.is_some() { 1 } else { 0 };
                 s.tags = vec!["conc".into(), format!("ct{}", i % 3)];
                 s.events = vec![format!("ce{}", i % 2)];
                 s.deps = vec!["cdep".into()];
@@ -709,4 +709,166 @@ pub fn static_corpus() -> Vec<FnSpec> {
         }
     }
     v
+}
+
+// ---------------------------------------------------------------------------------------
+// Random program corpora (engine E5)
+// ---------------------------------------------------------------------------------------
+
+pub struct Rng(pub u64);
+impl Rng {
+    pub fn next(&mut self) -> u64 {
+        self.0 = self.0.wrapping_add(0x9E3779B97F4A7C15);
+        let mut z = self.0;
+        z = (z ^ (z >> 30)).wrapping_mul(0xBF58476D1CE4E5B9);
+        z = (z ^ (z >> 27)).wrapping_mul(0x94D049BB133111EB);
+        z ^ (z >> 31)
+    }
+    pub fn below(&mut self, n: u64) -> u64 {
+        self.next() % n.max(1)
+    }
+    pub fn chance(&mut self, num: u64, den: u64) -> bool {
+        self.below(den) < num
+    }
+}
+
+fn random_ty(r: &mut Rng, depth: usize, top: bool) -> TyD {
+    use TyD::*;
+    let leaf = |r: &mut Rng| match r.below(14) {
+        0 => U8,
+        1 => U32,
+        2 => U64,
+        3 => I16,
+        4 => I64,
+        5 => Usize,
+        6 => Bool,
+        7 => Char,
+        8 | 9 => String,
+        10 => F64,
+        11 => UStruct,
+        12 => UEnum,
+        _ => I32,
+    };
+    if depth >= 2 {
+        return leaf(r);
+    }
+    match r.below(12) {
+        0 if top => StrRef,
+        1 if top => Slice(Box::new(leaf(r))),
+        2 => Opt(Box::new(random_ty(r, depth + 1, false))),
+        3 => Vec(Box::new(random_ty(r, depth + 1, false))),
+        4 => {
+            let n = 1 + r.below(3) as usize;
+            Tup((0..n).map(|_| random_ty(r, depth + 1, false)).collect())
+        }
+        _ => leaf(r),
+    }
+}
+
+/// A random decorated function: attribute presence / values x signature shape.
+pub fn random_spec(r: &mut Rng, id: u32, registry_mode: bool) -> FnSpec {
+    let flavour = if registry_mode { [Flavour::Global, Flavour::Async][r.below(2) as usize] } else { [Flavour::Global, Flavour::Thread, Flavour::Async][r.below(3) as usize] };
+    let fl = match flavour {
+        Flavour::Global => "g",
+        Flavour::Thread => "t",
+        Flavour::Async => "a",
+    };
+    let mut s = FnSpec::new(id, &format!("p19_{}_{:04}", fl, id), "prog", flavour);
+    if !r.chance(1, 7) {
+        s.policy = Some(Policy::ALL[r.below(6) as usize]);
+    }
+    s.limit = match r.below(7) {
+        0 | 1 => None,
+        2 => Some(1),
+        3 => Some(2),
+        4 => Some(3),
+        5 => Some(4),
+        _ => Some(10),
+    };
+    s.ttl = match r.below(6) {
+        0 => Some(1),
+        1 => Some(2),
+        2 => Some(3),
+        _ => None,
+    };
+    if !registry_mode {
+        match r.below(16) {
+            0 | 1 => {
+                s.max_memory = Some(("\"200\"".into(), 200));
+                s.pad = 1;
+            }
+            2 => {
+                s.max_memory = Some(("300".into(), 300));
+                s.pad = 1;
+            }
+            3 => {
+                // 1 KB = 1024: a value of 1014 bytes fits only if KB is a power of 1024
+                s.max_memory = Some((["\"1KB\"", "\"1kb\"", "\"1Kb\""][r.below(3) as usize].into(), 1024));
+                s.pad = 990;
+            }
+            4 => {
+                // two values of 1014 bytes fit in 2048 but not in 2000
+                s.max_memory = Some(("\"2KB\"".into(), 2048));
+                s.pad = 990;
+            }
+            5 if r.chance(1, 3) => {
+                // 1 MB = 1048576: a value of 1040024 bytes fits only if MB = 1024 * 1024
+                s.max_memory = Some((["\"1MB\"", "\"1mb\""][r.below(2) as usize].into(), 1024 * 1024));
+                s.pad = 1_040_000;
+            }
+            _ => {}
+        }
+    }
+    if s.policy == Some(Policy::Tlru) && r.chance(2, 3) {
+        let (t, v) = [("0.1", 0.1), ("0.3", 0.3), ("1.0", 1.0), ("1.5", 1.5), ("3", 3.0), ("2.0", 2.0)][r.below(6) as usize];
+        s.frequency_weight = Some((t.to_string(), v));
+    }
+    if r.chance(1, 4) {
+        s.name = Some(format!("n19_{}", id));
+    }
+    let pool = ["q0", "q1", "q2", "q3", "q4", "q5"];
+    let mut pick = |r: &mut Rng, p: u64| -> Vec<String> {
+        let mut out: Vec<String> = Vec::new();
+        if r.chance(p, 10) {
+            for _ in 0..(1 + r.below(2)) {
+                let c = pool[r.below(6) as usize].to_string();
+                if !out.contains(&c) {
+                    out.push(c);
+                }
+            }
+        }
+        out
+    };
+    let p = if registry_mode { 6 } else { 2 };
+    s.tags = pick(r, p);
+    s.events = pick(r, p);
+    s.deps = pick(r, p);
+    if !registry_mode {
+        s.invalidate_on = r.chance(1, 6);
+        s.cache_if = r.chance(1, 6);
+        s.ret = match r.below(4) {
+            0 => RetKind::ResultShort,
+            1 => RetKind::ResultStd,
+            _ => RetKind::Plain,
+        };
+        s.receiver = match r.below(9) {
+            0 => Receiver::Ref,
+            1 => Receiver::RefMut,
+            2 => Receiver::Value,
+            _ => Receiver::None,
+        };
+        let n_args = r.below(5) as usize;
+        s.args = (0..n_args).map(|_| random_ty(r, 0, true)).collect();
+        if s.receiver == Receiver::None && s.args.is_empty() && r.chance(1, 2) {
+            s.args = vec![TyD::U32];
+        }
+    }
+    s.explicit_global_scope = flavour == Flavour::Global && r.chance(1, 4);
+    s.attr_rotation = r.below(8) as usize;
+    s
+}
+
+pub fn random_corpus(seed: u64, n: usize, registry_mode: bool) -> Vec<FnSpec> {
+    let mut r = Rng(seed ^ 0xC19C19);
+    (0..n).map(|i| random_spec(&mut r, i as u32 + 1, registry_mode)).collect()
 }
